@@ -56,6 +56,7 @@ type Exec struct {
 
 	builders map[string]StrV
 	mutexes  map[string]*mutexState
+	conds    map[string]*condState
 	onces    map[string]*onceState
 	wgs      map[string]*wgState
 	atomics  map[string]bool
